@@ -879,64 +879,64 @@ theorem lookup_filter_ne (l : List (String × List Bytes)) (k k' : String) (h : 
       simp only [List.lookup]
       split <;> simp_all
 
+/-- `bnp.replace` answers iff the new column has the table's length (else AssertionError) -/
+theorem table_replace_ok_iff (t : Table) (k : String) (v : List Bytes) :
+    (∃ t', t.replace k v = .ok t') ↔ v.length = t.n := by
+  unfold Table.replace
+  by_cases h : v.length = t.n <;> simp [h]
+
+theorem table_replace_refused (t : Table) (k : String) (v : List Bytes) (h : v.length ≠ t.n) :
+    t.replace k v = .error .assertion := by
+  simp [Table.replace, h]
+
 /-- reading a column that was just replaced gives the NEW value, whatever was replaced before -/
-theorem table_get_replace (t : Table) (k : String) (v : List Bytes) : (t.replace k v).get k = some v := by
-  simp [Table.get, Table.replace]
+theorem table_get_replace (t t' : Table) (k : String) (v : List Bytes) (h : t.replace k v = .ok t') :
+    t'.get k = some v ∧ t'.n = t.n := by
+  unfold Table.replace at h
+  split at h
+  · cases h; simp [Table.get]
+  · cases h
 
 /-- … and every other column is untouched -/
-theorem table_get_replace_ne (t : Table) (k k' : String) (v : List Bytes) (h : k' ≠ k) :
-    (t.replace k v).get k' = t.get k' := by
-  have hk : (k' == k) = false := by simp [h]
-  simp only [Table.get, Table.replace, List.lookup, hk]
-  rw [lookup_filter_ne _ _ _ h]
+theorem table_get_replace_ne (t t' : Table) (k k' : String) (v : List Bytes) (h : t.replace k v = .ok t') (hne : k' ≠ k) :
+    t'.get k' = t.get k' := by
+  unfold Table.replace at h
+  split at h
+  · cases h
+    have hk : (k' == k) = false := by simp [hne]
+    simp only [Table.get, List.lookup, hk]
+    rw [lookup_filter_ne _ _ _ hne]
+  · cases h
 
 /-- `apply_to_npdataclass("sequence")(f)`: the result's sequence column is `f` of the CURRENT sequence column of its
 argument; all other columns are the argument's -/
-theorem applySeq_def (f : List Bytes → Option (List Bytes)) (t t' : Table) (h : t.applySeq f = some t') :
-    ∃ s r, t.get "sequence" = some s ∧ f s = some r ∧ t'.get "sequence" = some r ∧
+theorem applySeq_def (f : List Bytes → Except PErr (List Bytes)) (t t' : Table) (h : t.applySeq f = .ok t') :
+    ∃ s r, t.get "sequence" = some s ∧ f s = .ok r ∧ t'.get "sequence" = some r ∧
       ∀ k, k ≠ "sequence" → t'.get k = t.get k := by
   unfold Table.applySeq at h
   cases hs : t.get "sequence" with
   | none => simp [hs] at h
   | some s =>
     cases hr : f s with
-    | none => simp [hs, hr] at h
-    | some r =>
-      simp only [hs, hr, Option.some.injEq] at h
-      subst h
-      exact ⟨s, r, rfl, hr, table_get_replace _ _ _, fun k hk => table_get_replace_ne _ _ _ _ hk⟩
+    | error e => simp [hs, hr] at h
+    | ok r =>
+      simp only [hs, hr] at h
+      exact ⟨s, r, rfl, hr, (table_get_replace _ _ _ _ h).1, fun k hk => table_get_replace_ne _ _ _ _ _ h hk⟩
 
 /-- two decorated functions one after the other: the second sees the FIRST one's output, and the final table holds the
 second one's output (also when the argument is a lazy table whose `sequence` was already replaced) -/
-theorem applySeq_compose (f g : List Bytes → Option (List Bytes)) (t t1 t2 : Table)
-    (h1 : t.applySeq f = some t1) (h2 : t1.applySeq g = some t2) :
-    ∃ s r r2, t.get "sequence" = some s ∧ f s = some r ∧ g r = some r2 ∧ t2.get "sequence" = some r2 ∧
+theorem applySeq_compose (f g : List Bytes → Except PErr (List Bytes)) (t t1 t2 : Table)
+    (h1 : t.applySeq f = .ok t1) (h2 : t1.applySeq g = .ok t2) :
+    ∃ s r r2, t.get "sequence" = some s ∧ f s = .ok r ∧ g r = .ok r2 ∧ t2.get "sequence" = some r2 ∧
       ∀ k, k ≠ "sequence" → t2.get k = t.get k := by
   obtain ⟨s, r, hs, hr, h1s, h1o⟩ := applySeq_def f t t1 h1
   obtain ⟨s', r2, hs', hr2, h2s, h2o⟩ := applySeq_def g t1 t2 h2
   rw [h1s] at hs'; cases hs'
   exact ⟨s, r, r2, hs, hr, hr2, h2s, fun k hk => (h2o k hk).trans (h1o k hk)⟩
 
-/-- C14 clause 3 on a TABLE: reverse complement applied twice to a table (whose sequence column decodes to DNA) succeeds
-and gives back the sequence column, every other column unchanged -/
-theorem table_rc_twice (T : Tab) (h : tableOK T = true) (tab : List Nat) (t : Table) (s : List Bytes) (texts : List Bytes)
-    (hs : t.get "sequence" = some s) (hd : omap (decode T) s = some texts) (hdna : ∀ x ∈ texts, ∀ b ∈ x, isDna b = true) :
-    ∃ t1 t2, pipeStep T tab t .rc = some t1 ∧ pipeStep T tab t1 .rc = some t2 ∧ t2.get "sequence" = some s ∧
-      (∃ out, t1.get "sequence" = some out ∧ omap (decode T) out = some (texts.map specRevComp)) ∧
-      ∀ k, k ≠ "sequence" → t2.get k = t.get k := by
-  obtain ⟨out, ho, hod⟩ := revcomp_def T h s texts hd hdna
-  have hback := revcomp_involutive T h s texts hd hdna out ho
-  have e1 : pipeStep T tab t .rc = some (t.replace "sequence" out) := by
-    simp [pipeStep, Table.applySeq, hs, ho]
-  have e2 : pipeStep T tab (t.replace "sequence" out) .rc = some ((t.replace "sequence" out).replace "sequence" s) := by
-    simp [pipeStep, Table.applySeq, table_get_replace, hback]
-  refine ⟨_, _, e1, e2, table_get_replace _ _ _, ⟨out, table_get_replace _ _ _, hod⟩, ?_⟩
-  intro k hk
-  rw [table_get_replace_ne _ _ _ _ hk, table_get_replace_ne _ _ _ _ hk]
-
 /-- row selection and split-and-concatenate act on every column alike (a replaced column included) -/
-theorem mapCols_get (f : List Bytes → List Bytes) (t : Table) (k : String) :
-    (t.mapCols f).get k = (t.get k).map f := by
+theorem mapCols_get (n' : Nat) (f : List Bytes → List Bytes) (t : Table) (k : String) :
+    (t.mapCols n' f).get k = (t.get k).map f := by
   have key : ∀ l : List (String × List Bytes), (l.map (fun p => (p.1, f p.2))).lookup k = (l.lookup k).map f := by
     intro l
     induction l with
@@ -948,65 +948,261 @@ theorem mapCols_get (f : List Bytes → List Bytes) (t : Table) (k : String) :
   simp only [Table.get, Table.mapCols, key]
   cases t.sets.lookup k <;> simp
 
-/-- every step of a pipeline changes the sequence column as the property reads that step
-(`specStepSeq` with the model functions in place of the spec functions) -/
-theorem concat_step_id (T : Tab) (tab : List Nat) (t t' : Table) (k : Nat) (h : pipeStep T tab t (.concat k) = some t')
-    (c : String) : t'.get c = t.get c := by
-  simp only [pipeStep, Option.some.injEq] at h
-  subst h
-  rw [mapCols_get]
-  cases t.get c <;> simp
+/-! #### model = spec for every pipeline in the domain (the ASCII carrier: codes are the text bytes) -/
 
-/-! ### derived interval objects keep their kind -/
+theorem ascii_dec : Gen.C14.ASCII.dec = List.range 128 := by decide +kernel
+theorem ascii_ok : tableOK Gen.C14.ASCII = true := by decide +kernel
 
-theorem gi_step_kind (g : GI) (s : GStep) : (g.step s).stranded = g.stranded := by
-  cases s <;> rfl
+theorem isDna_lt (b : Nat) (h : isDna b = true) : b < 128 := by
+  simp only [isDna, dnaLetters, List.contains_eq_mem, List.mem_cons, List.mem_nil_iff, or_false,
+    decide_eq_true_eq] at h
+  omega
 
-/-- clipping, selecting, replacing a column by itself, split-and-concatenate: the result is stranded iff the
-object it was derived from is -/
-theorem derived_keeps_kind (steps : List GStep) (g : GI) : (steps.foldl GI.step g).stranded = g.stranded := by
-  induction steps generalizing g with
-  | nil => rfl
-  | cons s ss ih => simp only [List.foldl_cons]; rw [ih, gi_step_kind]
+theorem decode_ascii (cs : List Nat) (h : ∀ b ∈ cs, b < 128) : decode Gen.C14.ASCII cs = some cs := by
+  unfold decode
+  rw [ascii_dec]
+  have := omap_some_map (fun c => (List.range 128)[c]?) id cs (fun a ha => by simp [h a ha])
+  simpa using this
 
-theorem windows_kind (sizes : List Nat) (flank : Nat) (locs : List (Nat × Nat × Nat)) (st : Bool) :
-    (windows sizes flank locs st).stranded = st := rfl
+theorem decode_ascii_rows (s : List Bytes) (h : ∀ r ∈ s, ∀ b ∈ r, isDna b = true) :
+    omap (decode Gen.C14.ASCII) s = some s := by
+  have := omap_some_map (decode Gen.C14.ASCII) id s
+    (fun r hr => decode_ascii r (fun b hb => isDna_lt b (h r hr b hb)))
+  simpa using this
+
+/-- the invariant of a pipeline stage: the table has a `name` and a `sequence` column, both of the table's length -/
+structure TableWF (t : Table) (nm s : List Bytes) : Prop where
+  hs : t.get "sequence" = some s
+  hnm : t.get "name" = some nm
+  hn : s.length = t.n
+  hnn : nm.length = t.n
+
+/-- the domain of one step given the current sequence column: reverse complement wants DNA letters, translation whole
+codons over ACGTacgt; the table operations carry their own refusals (`specStepSeq … = none`) -/
+def stepOK (s : List Bytes) : PStep → Prop
+  | .rc => ∀ r ∈ s, ∀ b ∈ r, isDna b = true
+  | .translate => (∀ r ∈ s, r.length % 3 = 0) ∧
+      ∀ r ∈ s, ∀ b ∈ r, toUpper b = 65 ∨ toUpper b = 67 ∨ toUpper b = 71 ∨ toUpper b = 84
+  | _ => True
+
+theorem replace_wf (t : Table) (nm s v : List Bytes) (wf : TableWF t nm s) (hv : v.length = t.n) :
+    ∃ t', t.replace "sequence" v = .ok t' ∧ TableWF t' nm v := by
+  obtain ⟨t', ht'⟩ := (table_replace_ok_iff t "sequence" v).mpr hv
+  have h1 := table_get_replace _ _ _ _ ht'
+  have h2 := table_get_replace_ne _ _ _ "name" _ ht' (by decide)
+  exact ⟨t', ht', ⟨h1.1, h2.trans wf.hnm, by rw [h1.2]; exact hv, by rw [h1.2]; exact wf.hnn⟩⟩
+
+/-- C14 on tables, one step: inside the domain the step answers, and the answer's `sequence` column is what the property
+says of the CURRENT `sequence` column (reverse complement per row / standard genetic code per codon / the new column /
+the selected rows), its `name` column the selected or unchanged names -/
+theorem pipeStep_spec (t : Table) (nm s s' : List Bytes) (st : PStep) (wf : TableWF t nm s) (hok : stepOK s st)
+    (hspec : specStepSeq s st = some s') :
+    ∃ t', pipeStep Gen.C14.ASCII Gen.C14.codon t st = .ok t' ∧ TableWF t' (specStepNames nm st) s' := by
+  cases st with
+  | rc =>
+    simp only [specStepSeq, Option.some.injEq] at hspec
+    subst hspec
+    have hd := decode_ascii_rows s hok
+    obtain ⟨out, ho, hod⟩ := revcomp_def Gen.C14.ASCII ascii_ok s s hd hok
+    have hdna' : ∀ r ∈ s.map specRevComp, ∀ b ∈ r, isDna b = true := by
+      intro r hr
+      obtain ⟨x, hx, rfl⟩ := List.mem_map.mp hr
+      exact specRevComp_dna x (hok x hx)
+    have hout : out = s.map specRevComp :=
+      omap_inj (decode Gen.C14.ASCII) (fun a a' b ha ha' => decode_inj Gen.C14.ASCII ascii_ok a a' b ha ha')
+        out _ _ hod (decode_ascii_rows _ hdna')
+    subst hout
+    obtain ⟨t', ht', wf'⟩ := replace_wf t nm s (s.map specRevComp) wf (by simp [wf.hn])
+    exact ⟨t', by simp [pipeStep, Table.applySeq, wf.hs, ho, ht'], wf'⟩
+  | translate =>
+    simp only [specStepSeq] at hspec
+    obtain ⟨out, h1, h2⟩ := translate s hok.1 hok.2
+    rw [hspec] at h2; cases h2
+    have hl := omap_length _ _ _ hspec
+    obtain ⟨t', ht', wf'⟩ := replace_wf t nm s s' wf (by rw [hl, wf.hn])
+    exact ⟨t', by simp [pipeStep, Table.applySeq, wf.hs, h1, ht'], wf'⟩
+  | replace r =>
+    simp only [specStepSeq] at hspec
+    split at hspec
+    · rename_i hl
+      cases hspec
+      obtain ⟨t', ht', wf'⟩ := replace_wf t nm s s' wf (by rw [hl, wf.hn])
+      exact ⟨t', by simp [pipeStep, ht'], wf'⟩
+    · cases hspec
+  | same =>
+    simp only [specStepSeq, Option.some.injEq] at hspec
+    subst hspec
+    obtain ⟨t', ht', wf'⟩ := replace_wf t nm s s wf wf.hn
+    exact ⟨t', by simp [pipeStep, Table.applySeq, wf.hs, ht'], wf'⟩
+  | idx p =>
+    simp only [specStepSeq] at hspec
+    split at hspec
+    · rename_i hp
+      cases hspec
+      rw [wf.hn] at hp
+      refine ⟨t.mapCols p.length (selRows p), by simp only [pipeStep, hp, if_true], ?_⟩
+      exact ⟨by rw [mapCols_get, wf.hs]; rfl, by rw [mapCols_get, wf.hnm]; rfl,
+        by simp [selRows, Table.mapCols], by simp [selRows, Table.mapCols, specStepNames]⟩
+    · cases hspec
+  | concat k =>
+    simp only [specStepSeq, Option.some.injEq] at hspec
+    subst hspec
+    refine ⟨t.mapCols t.n (fun v => v.take k ++ v.drop k), rfl, ?_⟩
+    exact ⟨by rw [mapCols_get, wf.hs]; simp, by rw [mapCols_get, wf.hnm]; simp [specStepNames],
+      by simp [Table.mapCols, wf.hn], by simp [Table.mapCols, specStepNames, wf.hnn]⟩
+
+/-- … and outside the table operations' domain the code refuses: a column of another length (AssertionError), a row
+index outside the table (IndexError) - exactly where the spec has no answer -/
+theorem pipeStep_refuses (T : Tab) (tab : List Nat) (t : Table) (nm s : List Bytes) (wf : TableWF t nm s) :
+    (∀ r, specStepSeq s (.replace r) = none → pipeStep T tab t (.replace r) = .error .assertion) ∧
+    (∀ p, specStepSeq s (.idx p) = none → pipeStep T tab t (.idx p) = .error .index) := by
+  constructor
+  · intro r h
+    simp only [specStepSeq] at h
+    split at h
+    · cases h
+    · rename_i hl
+      exact table_replace_refused t _ r (by rw [← wf.hn]; exact hl)
+  · intro p h
+    simp only [specStepSeq] at h
+    split at h
+    · cases h
+    · rename_i hp
+      rw [wf.hn] at hp
+      simp [pipeStep, hp]
+
+/-- the domain of a pipeline: every step is in the domain of its function on the column the spec gives it -/
+def PipeOK : List Bytes → List PStep → Prop
+  | _, [] => True
+  | s, st :: ss => stepOK s st ∧ ∀ s', specStepSeq s st = some s' → PipeOK s' ss
+
+/-- C14 on tables, whole pipelines: for every step list in the domain the model answers, and stage by stage the `name`
+and `sequence` columns it holds are the ones the property-level reading (`specStages`) gives -/
+theorem runPipe_spec (steps : List PStep) : ∀ (t : Table) (nm s : List Bytes) (stages : List (List Bytes × List Bytes)),
+    TableWF t nm s → PipeOK s steps → specStages nm s steps = some stages →
+    ∃ ts, runPipe Gen.C14.ASCII Gen.C14.codon t steps = .ok ts ∧
+      ts.map (fun t => (t.get "name", t.get "sequence")) = stages.map (fun p => (some p.1, some p.2)) := by
+  induction steps with
+  | nil =>
+    intro t nm s stages wf _ h
+    simp only [specStages, Option.some.injEq] at h
+    subst h
+    exact ⟨[t], rfl, by simp [wf.hs, wf.hnm]⟩
+  | cons st ss ih =>
+    intro t nm s stages wf hok h
+    simp only [specStages] at h
+    cases hsp : specStepSeq s st with
+    | none => simp [hsp] at h
+    | some s' =>
+      simp only [hsp, Option.map_eq_some_iff] at h
+      obtain ⟨rest, hrest, rfl⟩ := h
+      obtain ⟨t', ht', wf'⟩ := pipeStep_spec t nm s s' st wf hok.1 hsp
+      obtain ⟨ts, hts, hmap⟩ := ih t' _ s' rest wf' (hok.2 s' hsp) hrest
+      exact ⟨t :: ts, by simp [runPipe, ht', hts], by simp [wf.hs, wf.hnm, hmap]⟩
+
+/-- C14 clause 3 on a TABLE: reverse complement applied twice to a table of DNA gives back the sequence column, names
+unchanged (instance of `runPipe_spec` + `specRevComp_invol`) -/
+theorem table_rc_twice (t : Table) (nm s : List Bytes) (wf : TableWF t nm s) (hdna : ∀ r ∈ s, ∀ b ∈ r, isDna b = true) :
+    ∃ t1 t2, runPipe Gen.C14.ASCII Gen.C14.codon t [.rc, .rc] = .ok [t, t1, t2] ∧
+      t1.get "sequence" = some (s.map specRevComp) ∧ t2.get "sequence" = some s ∧ t2.get "name" = some nm := by
+  have hdna' : ∀ r ∈ s.map specRevComp, ∀ b ∈ r, isDna b = true := by
+    intro r hr
+    obtain ⟨x, hx, rfl⟩ := List.mem_map.mp hr
+    exact specRevComp_dna x (hdna x hx)
+  have hback : (s.map specRevComp).map specRevComp = s := by
+    rw [List.map_map]
+    have : (specRevComp ∘ specRevComp) = id := by funext x; simp [specRevComp_invol]
+    simp [this]
+  obtain ⟨t1, h1, wf1⟩ := pipeStep_spec t nm s _ .rc wf hdna rfl
+  obtain ⟨t2, h2, wf2⟩ := pipeStep_spec t1 nm _ _ .rc wf1 hdna' rfl
+  refine ⟨t1, t2, by simp [runPipe, h1, h2], wf1.hs, ?_, wf2.hnm⟩
+  rw [wf2.hs, hback]
+
+/-! ### derived interval objects: the kind flag along the derivations -/
+
+/-- the running code hands the object's own `is_stranded` on in all five derivations (re-tabulated every run; a method
+that drops the flag changes `Gen.C14.giFlags` and this stops compiling) -/
+theorem gen_flags_keep : Gen.C14.giFlags = GFlags.keep := by decide
+
+theorem gi_step_kind (g g' : GI) (s : GStep) (h : GI.step GFlags.keep g s = some g') : g'.stranded = g.stranded := by
+  cases s <;> simp only [GI.step] at h
+  · cases h; cases hg : g.stranded <;> simp [Flag.apply, GFlags.keep, Flag.keep]
+  · split at h
+    · cases h; cases hg : g.stranded <;> simp [Flag.apply, GFlags.keep, Flag.keep]
+    · cases h
+  · cases h; cases hg : g.stranded <;> simp [Flag.apply, GFlags.keep, Flag.keep]
+  · cases h; cases hg : g.stranded <;> simp [Flag.apply, GFlags.keep, Flag.keep]
+
+/-- with flag-keeping constructor calls, any derivation that answers gives an object of the original's kind -/
+theorem derived_keeps_kind (steps : List GStep) : ∀ (g g' : GI), runG GFlags.keep g steps = some g' →
+    g'.stranded = g.stranded := by
+  induction steps with
+  | nil => intro g g' h; simp only [runG, Option.some.injEq] at h; subst h; rfl
+  | cons s ss ih =>
+    intro g g' h
+    simp only [runG] at h
+    cases hs : GI.step GFlags.keep g s with
+    | none => simp [hs] at h
+    | some g1 =>
+      simp only [hs] at h
+      rw [ih g1 g' h, gi_step_kind g g1 s hs]
+
+/-- a model in which ONE derivation (`clip`) leaves the flag out is a different model, and it violates clause 4: the
+`-` interval comes back forward -/
+theorem flag_dropped_unsound :
+    let F : GFlags := { GFlags.keep with clip := ⟨false, false⟩ }
+    (runG F ⟨[⟨0, 1, 9, 45⟩], true⟩ [.clip [3]]).bind (getitem Gen.C14.ACGT [[0, 1, 1]]) = some [[1, 1]] ∧
+    (runG GFlags.keep ⟨[⟨0, 1, 9, 45⟩], true⟩ [.clip [3]]).bind (getitem Gen.C14.ACGT [[0, 1, 1]]) = some [[2, 2]] := by
+  decide +kernel
 
 /-- a clipped interval ends inside its chromosome -/
-theorem clip_in_bounds (g : GI) (sizes : List Nat) :
-    ∀ iv ∈ (g.step (.clip sizes)).ivs, iv.stop ≤ sizes.getD iv.chrom 0 := by
+theorem clip_in_bounds (F : GFlags) (g g' : GI) (sizes : List Nat) (h : GI.step F g (.clip sizes) = some g') :
+    ∀ iv ∈ g'.ivs, iv.stop ≤ sizes.getD iv.chrom 0 := by
+  simp only [GI.step, Option.some.injEq] at h
+  subst h
   intro iv hiv
-  simp only [GI.step, List.mem_map] at hiv
+  simp only [List.mem_map] at hiv
   obtain ⟨iv0, _, rfl⟩ := hiv
   simp only [clipIv]
   exact Nat.min_le_left _ _
 
 /-- the windows around locations are `[p - flank, p + flank + 1) ∩ [0, size)` with the location's strand -/
-theorem windows_ivs (sizes : List Nat) (flank : Nat) (locs : List (Nat × Nat × Nat)) (st : Bool) :
-    (windows sizes flank locs st).ivs =
+theorem windows_ivs (F : GFlags) (sizes : List Nat) (flank : Nat) (locs : List (Nat × Nat × Nat)) (st : Bool) :
+    (windows F sizes flank locs st).ivs =
       locs.map (fun l => ⟨l.1, l.2.1 - flank, min (sizes.getD l.1 0) (l.2.1 + flank + 1), l.2.2⟩) := by
-  simp [windows, GI.step, clipIv, Function.comp_def]
+  simp [windows, clipIv, Function.comp_def]
 
-/-- C14 clause 4 through the Genome API: `genomic_sequence[intervals]` for a stranded interval object that went through
-any derivation steps returns, for the intervals the derived object denotes, the forward slice for `+` and its reverse
-complement otherwise -/
+/-- C14 clause 4 through the Genome API: with the flags of the running code, `genomic_sequence[intervals]` for a
+stranded interval object that went through any derivation that answers returns, for the intervals the derived object
+denotes, the forward slice for `+` and its reverse complement otherwise -/
 theorem getitem_derived (T : Tab) (h : tableOK T = true) (seqs : List (List Nat)) (texts : List Bytes)
     (hd : omap (decode T) seqs = some texts) (hdna : ∀ t ∈ texts, ∀ b ∈ t, isDna b = true)
-    (g : GI) (hs : g.stranded = true) (steps : List GStep) :
-    ∃ out, getitem T seqs (steps.foldl GI.step g) = some out ∧
-      omap (decode T) out = some (specStrand texts (steps.foldl GI.step g).ivs) := by
-  obtain ⟨out, h1, h2⟩ := extract_stranded_def T h seqs texts hd hdna (steps.foldl GI.step g).ivs
+    (g g' : GI) (hs : g.stranded = true) (steps : List GStep) (hg : runG Gen.C14.giFlags g steps = some g') :
+    ∃ out, getitem T seqs g' = some out ∧ omap (decode T) out = some (specStrand texts g'.ivs) := by
+  rw [gen_flags_keep] at hg
+  obtain ⟨out, h1, h2⟩ := extract_stranded_def T h seqs texts hd hdna g'.ivs
   refine ⟨out, ?_, h2⟩
-  simp [getitem, derived_keeps_kind, hs, h1]
+  simp [getitem, derived_keeps_kind steps g g' hg, hs, h1]
 
 /-- … and for an object that is not stranded, the forward slices whatever the strand column says -/
-theorem getitem_unstranded (T : Tab) (seqs : List (List Nat)) (g : GI) (hs : g.stranded = false) (steps : List GStep) :
-    getitem T seqs (steps.foldl GI.step g) = some (relevant seqs (steps.foldl GI.step g).ivs) := by
-  simp [getitem, derived_keeps_kind, hs, extract_unstranded_def]
+theorem getitem_unstranded (T : Tab) (seqs : List (List Nat)) (g g' : GI) (hs : g.stranded = false) (steps : List GStep)
+    (hg : runG Gen.C14.giFlags g steps = some g') : getitem T seqs g' = some (relevant seqs g'.ivs) := by
+  rw [gen_flags_keep] at hg
+  simp [getitem, derived_keeps_kind steps g g' hg, hs, extract_unstranded_def]
 
-example : (pipeStep Gen.C14.ASCII Gen.C14.codon ⟨[("name", [[0]]), ("sequence", [[97, 71]])], []⟩ .rc).bind
-    (fun t1 => (pipeStep Gen.C14.ASCII Gen.C14.codon t1 .rc).bind (fun t2 => t2.get "sequence")) = some [[97, 71]] := by
-  decide +kernel
-example : ((windows [4] 2 [(0, 2, 45), (0, 0, 45)] true).ivs.map (fun iv => (iv.start, iv.stop))) = [(0, 4), (0, 3)] := by decide
+example : TableWF ⟨1, [("name", [[0]]), ("sequence", [[97, 71]])], []⟩ [[0]] [[97, 71]] := ⟨rfl, rfl, rfl, rfl⟩
+example : PipeOK [[97, 84, 71]] [.rc, .replace [[67, 65, 84]], .translate] := by
+  refine ⟨?_, fun s' h => ⟨trivial, fun s'' h' => ?_⟩⟩
+  · show ∀ r ∈ [[97, 84, 71]], ∀ b ∈ r, isDna b = true
+    decide
+  · simp only [specStepSeq] at h h'
+    cases h
+    simp at h'
+    subst h'
+    refine ⟨?_, fun _ _ => trivial⟩
+    show (∀ r ∈ [[67, 65, 84]], r.length % 3 = 0) ∧
+      ∀ r ∈ [[67, 65, 84]], ∀ b ∈ r, toUpper b = 65 ∨ toUpper b = 67 ∨ toUpper b = 71 ∨ toUpper b = 84
+    decide
+example : ((windows GFlags.keep [4] 2 [(0, 2, 45), (0, 0, 45)] true).ivs.map (fun iv => (iv.start, iv.stop))) = [(0, 4), (0, 3)] := by decide
 
 end C14
